@@ -3,7 +3,7 @@
 From PydapV Require Import Base Paths PathsProofs.
 
 Theorem C16_confined : forall exts fs root path_info,
-  isdir fs root = true -> suffixb catalog_xml (last root []) = false ->
+  isdir fs root = true -> chars_eqb (last root []) catalog_xml = false ->
   Forall (inside root) (snd (route exts fs root path_info)).
 Proof. exact confined. Qed.
 Print Assumptions C16_confined.
@@ -24,7 +24,7 @@ Print Assumptions C16_refusal_discloses_nothing.
 
 Theorem C16_routing_table : forall exts fs root path_info,
   let p := resolve root path_info in
-  is_prefix root p = true -> suffixb catalog_xml (last p []) = false ->
+  is_prefix root p = true -> chars_eqb (last p []) catalog_xml = false ->
   (isfile fs p = true -> fst (route exts fs root path_info) = FileVerbatim p) /\
   (isdir fs p = true -> fst (route exts fs root path_info) = Listing p (listdir fs p)) /\
   (exists_ fs p = false ->
@@ -44,7 +44,7 @@ Example C16_ex :
   let root := [s2l "srv"; s2l "data"] in
   let fs := [(root, Dir); (root ++ [s2l "t.csv"], File 1); ([s2l "srv"; s2l "data2"], Dir);
              ([s2l "srv"; s2l "data2"; s2l "s.txt"], File 2)] in
-  isdir fs root = true /\ suffixb catalog_xml (last root []) = false /\
+  isdir fs root = true /\ chars_eqb (last root []) catalog_xml = false /\
   route [s2l ".csv"] fs root (s2l "/../data2/s.txt") = (Forbidden, []) /\
   fst (route [s2l ".csv"] fs root (s2l "/sub/../t.csv.dds")) = Dap (root ++ [s2l "t.csv"]) (s2l ".dds").
 Proof. cbn zeta. repeat split; reflexivity. Qed.
